@@ -5,6 +5,7 @@ import Driver.Custom
 import Driver.Edit
 import Driver.Lower
 import Driver.Helpers
+import Driver.Sem
 open Driver
 
 def step (line : String) : List String :=
@@ -16,6 +17,7 @@ def step (line : String) : List String :=
   | "edit" :: rest => runEdit rest
   | "lower" :: rest => runLower rest
   | "helpers" :: rest => runHelpers rest
+  | "sem" :: rest => runSem rest
   | [] => []
   | f :: _ => [s!"{f} ? unknown-family"]
 
